@@ -238,9 +238,16 @@ Rename(p) ==
   /\ tmp' = <<>>
   /\ logfile' = TRUE
   /\ pend' = [pend EXCEPT ![p] = <<>>]
-  /\ pc' = [pc EXCEPT ![p] = "releasing"]
+  /\ pc' = [pc EXCEPT ![p] = "renamed"]
   /\ Note(p, "step")
   /\ UNCHANGED <<scn, lock, lockfile, sec, snap, outc, rd, now, crashes, torn, acks>>
+
+\* between the rename and the end of the critical section (directory sync, return)
+AfterRename(p) ==
+  /\ pc[p] = "renamed"
+  /\ pc' = [pc EXCEPT ![p] = "releasing"]
+  /\ Note(p, "step")
+  /\ UNCHANGED <<scn, inodes, cur, tmp, lock, lockfile, logfile, sec, snap, pend, outc, rd, now, crashes, torn, acks>>
 
 Unlock(p) ==
   /\ pc[p] = "releasing"
@@ -324,7 +331,7 @@ RScan(r) ==
   /\ UNCHANGED <<scn, inodes, cur, tmp, lock, lockfile, logfile, sec, snap, pend, now, crashes, torn, acks>>
 
 WStep(p) == InitBegin(p) \/ InitCreate(p) \/ Begin(p) \/ MkLock(p) \/ TryLock(p) \/ ReadLog(p) \/ Decide(p) \/ AppendLine(p) \/ WriteTmp(p)
-            \/ Rename(p) \/ Unlock(p) \/ NextSection(p)
+            \/ Rename(p) \/ AfterRename(p) \/ Unlock(p) \/ NextSection(p)
 RStep(r) == RPath(r) \/ ROpen(r) \/ RProbe(r) \/ RScan(r)
 
 Init ==
